@@ -56,6 +56,9 @@ func (c12) Gen(tier string, seed int64) []fw.Unit {
 			}
 		}
 	}
+	for _, q := range azBoundaryReqs(r, tier == "thorough", false) {
+		us = append(us, q.Unit("ecc", "aztec/capacity-boundary"))
+	}
 	// PDF417: every level for fixed data, incl. short data where check words dominate
 	for lvl := int64(0); lvl < 9; lvl++ {
 		for _, s := range []string{"", "A", "PDF417", "1234567890123456", "\x80\x81\x82"} {
